@@ -25,7 +25,8 @@ from common import MachineryError, Scratch, Verdict
 CONF = {
     "C01": dict(prefixes=("C01.",), builds=("pure", "cy"),
                 model=[("plain", 250, 2500), ("dag", 200, 2500), ("kinds3", 150, 2000), ("sync", 200, 2500),
-                       ("ctx", 100, 1000), ("faults", 150, 2000), ("everything", 200, 3000), ("lazyfail", 100, 1000), ("ival", 150, 1500)],
+                       ("ctx", 100, 1000), ("faults", 150, 2000), ("everything", 200, 3000), ("lazyfail", 100, 1000), ("ival", 150, 1500),
+                       ("again", 250, 2500)],
                 monitor_only=[("cleanup", 400, 4000)],
                 big=[("big", 40, 600), ("everything", 200, 3000)], enum=True),
     "C02": dict(prefixes=("C02.",), builds=("pure",),
@@ -33,11 +34,11 @@ CONF = {
                        ("everything", 200, 3000)],
                 big=[("faults", 400, 5000)]),
     "C03": dict(prefixes=("C03.",), builds=("pure",),
-                model=[("plain", 300, 3000), ("dag", 400, 4000), ("spawn", 200, 2000), ("sync", 250, 2500), ("ival", 200, 2000), ("spawnsync", 200, 2000),
+                model=[("plain", 300, 3000), ("dag", 400, 4000), ("spawn", 200, 2000), ("sync", 250, 2500), ("ival", 200, 2000), ("spawnsync", 200, 2000), ("again", 250, 2500),
                        ("faults", 150, 2000), ("everything", 150, 2000)],
                 big=[("big", 60, 800), ("dag", 300, 3000)], deep=True, liveness=True),
     "C04": dict(prefixes=("C04.",), builds=("pure",),
-                model=[("plain", 400, 4000), ("dag", 300, 3000), ("kinds3", 300, 3000), ("faults", 200, 2500), ("ctx", 150, 1500)],
+                model=[("plain", 400, 4000), ("dag", 300, 3000), ("kinds3", 300, 3000), ("faults", 200, 2500), ("ctx", 150, 1500), ("again", 200, 2000)],
                 big=[("big", 80, 1000), ("kinds3", 300, 3000)], enum=True),
     "C05": dict(prefixes=("C05.",), builds=("pure",),
                 model=[("kinds3", 500, 5000), ("faults", 300, 3000), ("sync", 250, 2500), ("spawn", 200, 2000),
